@@ -165,12 +165,30 @@ func (t *tool) do(overlayPath, reportPath string) error {
 	rep := t.staticReport()
 
 	in := newInstrumenter(t.fset, t.info)
+	// the clock seam needs the verifNow hook in the hooks file of the tree
+	// under test
+	hasClockHook := false
+	for _, f := range t.files {
+		if !f.hooks {
+			continue
+		}
+		for _, d := range f.ast.Decls {
+			if fd, ok := d.(*ast.FuncDecl); ok && fd.Recv == nil && fd.Name.Name == "verifNow" {
+				hasClockHook = true
+			}
+		}
+	}
 	for _, f := range t.files {
 		if f.hooks {
 			continue
 		}
 		in.rewriteMapRanges(f)
+		if hasClockHook {
+			in.rewriteClock(f)
+		}
 	}
+	rep.ClockSites = in.clockSites
+	rep.ClockSeam = hasClockHook
 	for _, f := range t.files {
 		if f.hooks {
 			continue
